@@ -77,6 +77,7 @@ type Pred struct {
 	Ret    string
 	Body   string
 	Ghost  bool // uninterpreted heap-dependent function (model field)
+	Fun    bool // heap-independent: emitted as an SMT define-fun instead of being inlined
 	Line   int
 	Decl   *ast.FuncDecl
 }
@@ -164,8 +165,11 @@ func ParseContractFile(path, pkgPath string) (*PkgSpec, error) {
 				_, ps.Implicit = parseTags(text)
 				cur = nil
 				continue
-			case "pred", "ghost":
+			case "pred", "ghost", "fun":
 				p, err := parsePred(strings.TrimSpace(strings.TrimPrefix(text, first)), first == "ghost")
+				if p != nil {
+					p.Fun = first == "fun"
+				}
 				if err != nil {
 					return nil, fmt.Errorf("%s:%d: %v", path, ln+1, err)
 				}
